@@ -46,7 +46,7 @@ def decoders_for(entry, enc, quick):
         out.append(("SyndromeLookupDecoder", lambda: D.SyndromeLookupDecoder(enc), True))
     if k <= (8 if quick else 10) or (k <= 12 and entry.family in ("hamming", "golay")):      # the larger codebooks (2^11, 2^12 codewords) on two families
         out.append(("BruteForceMLDecoder", lambda: D.BruteForceMLDecoder(enc), True))
-    if entry.family == "bch":
+    if entry.family == "bch" and entry.info in ("left", "right"):      # the property pairs Berlekamp-Massey with both standard layouts; an index list permutes the coordinates, the code is then no longer cyclic
         out.append(("BerlekampMasseyDecoder", lambda: D.BerlekampMasseyDecoder(enc), False))
     if entry.family == "rm":
         out.append(("ReedMullerDecoder", lambda: D.ReedMullerDecoder(enc, input_type="hard"), True))
